@@ -1,18 +1,23 @@
 #!/bin/bash
-# Runs every stored seeded change against the check named in its meta.json (quick tier) and
-# reports which ones are caught. /repo is restored after each run. Results: seeded/REGRESS.txt
+# Runs every stored seeded change against the check named in its meta.json (quick tier) and reports
+# which ones are caught; three at a time, each in its own scratch worktree (tools/mutcheck.sh).
+# /repo, /verif/evidence and /verif/replays are not touched. Results: seeded/REGRESS.txt
 cd /verif || exit 2
-out=seeded/REGRESS.txt; : > $out
-cp -r evidence /tmp/evidence.keep.$$ 2>/dev/null
-for d in seeded/*/; do
-  id=$(basename $d)
-  [ -f $d/meta.json ] || continue
-  if [ -n "$1" ] && [[ ! "$id" =~ $1 ]]; then continue; fi
+out=seeded/REGRESS.txt; tmp=$(mktemp -d)
+one() {
+  d=$1; id=$(basename $d)
   prop=$(python3 -c "import json,sys;print(json.load(open('$d/meta.json'))['check']['command'].split()[1])")
-  if ! git -C /repo apply --check /verif/$d/patch.diff 2>/dev/null; then echo "$id $prop NOAPPLY" | tee -a $out; continue; fi
-  res=$(tools/mutcheck.sh $prop /verif/$d/patch.diff quick 2>&1 | head -1)
-  cls=$(grep -m1 "^violation class" /tmp/mutcheck.$prop.log | cut -c1-120)
-  echo "$id $prop $res $cls" | tee -a $out
-done
-rm -rf evidence && mv /tmp/evidence.keep.$$ evidence
-git clean -fdq replays
+  if ! git -C /repo apply --check /verif/$d/patch.diff 2>/dev/null; then echo "$id $prop NOAPPLY" > $tmp/$id.res; return; fi
+  res=$(MUTLOG=$tmp/$id.log VERIF_WORKERS=6 tools/mutcheck.sh $prop /verif/$d/patch.diff quick 2>&1 | head -1)
+  cls=$(grep -m1 "^violation class" $tmp/$id.log | cut -c1-120)
+  echo "$id $prop $res $cls" > $tmp/$id.res
+}
+export -f one; export tmp
+ls -d seeded/*/ | while read d; do
+  id=$(basename $d); [ -f $d/meta.json ] || continue
+  if [ -n "$1" ] && [[ ! "$id" =~ $1 ]]; then continue; fi
+  echo $d
+done | xargs -P 3 -I{} bash -c 'one {}'
+cat $tmp/*.res 2>/dev/null | sort -V > $out.new
+if [ -n "$1" ]; then cat $out.new; rm -f $out.new; else mv $out.new $out; cat $out; fi
+rm -rf $tmp
